@@ -179,7 +179,8 @@ CHECKS = {
              "record stored or reported flows (through the iterator pipeline, coroutine-saved slots included) out of that filter, "
              "with no chain / merge met before it. The attribute writer (TXT from a map) writes a `=` on every path of a present "
              "value and on no path of an absent one, and the reader (TXT::attributes) splits once at the first `=` and stores a "
-             "present value exactly on the paths where a second piece exists.",
+             "present value exactly on the paths where a second piece exists. The escape / unescape functions convert no single byte "
+             "to a char (a necessary condition of the inverse).",
         note="Does not decide set / attribute value equality across the wire, which labels form the instance name, nor the escape / "
              "unescape inverse (value-level; two seeded changes of that kind are documented as not detected).",
         ref="DESIGN.md section 4 C15"),
@@ -257,7 +258,7 @@ def main():
         "not_applicable": na,
         "notes": "All checks are static: /repo is type-checked by the driver, never executed. Exit 2 = infrastructure error "
                  "(tree does not compile / driver missing). Functions that are not in tables/functions.tsv (helpers extracted by a "
-                 "later refactoring) are inlined into their callers before analysis. Tested both ways: seeded/ (136 property-breaking "
+                 "later refactoring) are inlined into their callers before analysis. Tested both ways: seeded/ (150 property-breaking "
                  "changes, RESULTS.json) and neutral/ (behaviour-preserving refactorings that must stay silent).",
     }
     json.dump(m, open(os.path.join(VERIF, "MANIFEST.json"), "w"), indent=1)
